@@ -301,6 +301,9 @@ static IsoResult exec_isolated(const Plan& plan, Replicas& reps, const std::stri
     } else {
         out.r.violated = true; out.r.crashed = true;
         out.r.crash_info = classify_exit(status, pid, out.r.v.prop, out.r.v.oracle); out.r.v.detail = out.r.crash_info; out.r.v.step = -1;
+        // a call sequence of the property's own scenario that ends in a crash / sanitizer report did not deliver what the property promises:
+        // it is a violation of the property being checked as well as of C17 (on the unchanged tree nothing crashes)
+        if (!focus.empty() && out.r.v.prop != focus) { out.r.v.oracle = "crash:" + out.r.v.prop + ":" + out.r.v.oracle; out.r.v.prop = focus; }
     }
     unlink(errfile_for(pid).c_str());
     return out;
@@ -626,6 +629,7 @@ int run_check(const std::string& prop, const std::string& tier, uint64_t seed, i
                         if (WIFSIGNALED(status) && WTERMSIG(status) == SIGKILL) { r.v.prop = prop; r.v.oracle = "liveness:run-does-not-terminate"; r.v.detail = "watchdog: one run did not finish within 300 s (runs take milliseconds to a few seconds)"; }
                         Unit u = w.next < w.todo.size() ? w.todo[w.next] : Unit{0, 0};
                         st.evaluations++;
+                        if (r.v.prop != prop) { r.v.oracle = "crash:" + r.v.prop + ":" + r.v.oracle; r.v.prop = prop; }
                         if (r.v.prop == prop || prop == "C17") viols.push_back({u, r}); else { st.counters["other_property_violation:" + r.v.prop + ":" + r.v.oracle]++; if (getenv("JV_DEBUG")) printf("  debug: worker died at batch %zu run %llu: %s\n", u.b, (unsigned long long) u.idx, r.v.detail.c_str()); }
                         unlink(errfile_for(w.pid).c_str());
                         w.next++;
